@@ -817,3 +817,37 @@ def signals_registered(ctx: Ctx, rule: str) -> None:
     ok = bool(reg) and bool(cons) and all(flow.must_pass(g, g.entry.id, [c], reg, flow.NORMAL_KINDS) for c in cons)
     ctx.check(ok, rule, run, "signal handlers are in place before consuming starts", "_register_signals dominates the consume gather", "Worker._run starts consuming before (or without) registering its signal handlers: "
               "a stop signal that arrives early terminates the process with messages in flight", instance="signals before consuming")
+
+
+def pydantic_output_table(ctx: Ctx, rule: str) -> None:
+    """PydanticConverter.convert_outputs, row by row: no return annotation -> plain JSON; a model-typed return -> the model's own dump (validated first when the actor returned
+    something else than a model instance); any other annotated type -> through the generated output model."""
+    f = ctx.func("repid.converter.PydanticConverter.convert_outputs")
+    g = ctx.cfg(f)
+    rets = [n for n in g.nodes if n.kind == "return" and isinstance(n.ast, ast.Return) and n.ast.value is not None]
+    if not ctx.check(len(rets) >= 4, rule, f, "pydantic convert_outputs has its four outcomes", "four returns", f"PydanticConverter.convert_outputs has {len(rets)} return(s): a case of the output encoding is gone "
+                     "(an un-annotated actor's result is pushed through model validation, or a model result is double-encoded)", instance="pydantic outputs: cases"):
+        return
+
+    def env(validate, is_model_type, is_instance):
+        def pred(node):
+            if dotted(node) == "self.validate_output":
+                return validate
+            if isinstance(node, ast.Call) and dotted(node.func) == "issubclass":
+                return is_model_type
+            if isinstance(node, ast.Call) and dotted(node.func) == "isinstance":
+                return is_instance
+            return None
+        return {"*p": lambda text, node: pred(node)}
+
+    rows = [("no annotation", env(False, False, False), "JSON_ENCODER.encode(data)"),
+            ("model type, model instance", env(True, True, True), "data.model_dump_json()"),
+            ("model type, other value", env(True, True, False), "self.output_type.model_validate(data).model_dump_json()"),
+            ("other annotated type", env(True, False, False), "self.output_pydantic_model.model_validate(data).model_dump_json()")]
+    for name, e, want in rows:
+        r = flow.reach_under(g, e, flow.NORMAL_KINDS)
+        got = sorted({C.utext(f, x.ast.value, calls="all") for x in rets if x.id in r})
+        if name == "no annotation" and len(got) == 1 and got[0].endswith(".encode(data)") and "model" not in got[0]:
+            got = [want]  # the plain JSON encoder, possibly an injected one that defaults to JSON_ENCODER
+        ctx.check(got == [want], rule, f, f"pydantic convert_outputs [{name}] -> {want}", "exactly this encoding", f"PydanticConverter.convert_outputs, case '{name}': returns {got} instead of {want} - the stored result does not decode to "
+                  "what the actor returned (or encoding raises and a successful execution is recorded as failed)", instance=f"pydantic outputs[{name}]")
